@@ -422,20 +422,37 @@ func init() {
 		LeaveGroupRequest LeaveGroupResponse SyncGroupResponse OffsetRequest AddPartitionsToTxnRequest AddOffsetsToTxnRequest
 		AddOffsetsToTxnResponse DescribeGroupsRequest SaslHandshakeRequest SaslHandshakeResponse SaslAuthenticateRequest
 		SaslAuthenticateResponse DeleteGroupsRequest DeleteGroupsResponse CreateTopicsResponse JoinGroupResponse OffsetFetchResponse
-		AlterPartitionReassignmentsRequest ListPartitionReassignmentsRequest MetadataResponse OffsetCommitRequest FetchRequest`) {
+		AlterPartitionReassignmentsRequest ListPartitionReassignmentsRequest MetadataResponse OffsetCommitRequest FetchRequest
+		OffsetResponse OffsetFetchRequest ConsumerMetadataRequest ConsumerMetadataResponse JoinGroupRequest SyncGroupRequest
+		DescribeGroupsResponse ListGroupsRequest ApiVersionsRequest CreateTopicsRequest DeleteRecordsRequest DeleteRecordsResponse
+		AddPartitionsToTxnResponse TxnOffsetCommitRequest DescribeAclsRequest DescribeAclsResponse CreateAclsRequest
+		CreateAclsResponse DeleteAclsRequest DeleteAclsResponse AlterConfigsRequest AlterConfigsResponse
+		IncrementalAlterConfigsRequest IncrementalAlterConfigsResponse DescribeConfigsRequest DescribeConfigsResponse
+		DescribeLogDirsRequest DescribeLogDirsResponse AlterPartitionReassignmentsResponse ListPartitionReassignmentsResponse
+		DescribeUserScramCredentialsRequest DescribeUserScramCredentialsResponse AlterUserScramCredentialsRequest
+		AlterUserScramCredentialsResponse ConsumerGroupMemberAssignment CreatePartitionsRequest ConsumerGroupMemberMetadata`) {
 		schemaBodies[n] = true
 		dschemaBodies[n] = true
 	}
 	// the decoder reads the partition list as count + int32s where the encoder (and the schema) use one
 	// putCompactInt32Array call: same bytes, different call granularity
 	delete(dschemaBodies, "ListPartitionReassignmentsRequest")
+	// reads its nullable error message with getString (known finding): the calls differ from the schema's by design
+	delete(dschemaBodies, "DescribeAclsResponse")
 }
 
 // bodies whose decode makes the calls the schema's decoder makes (same primitives in the same order)
 var dschemaBodies = map[string]bool{}
 
 // values outside what the schema language expresses (documented in CodecSchemas.lean): none so far
-func schemaFits(name string, ver int16, toks string) bool { return true }
+func schemaFits(name string, ver int16, toks string) bool {
+	// OffsetFetchRequest v6+: a nil partition list is written as the null compact array (`putUVarint(0)`), a form
+	// the schema language has no constructor for (its decoder cannot tell it from the empty array, see findings)
+	if name == "OffsetFetchRequest" && ver >= 6 && strings.Contains(" "+toks+" ", " uv:0 ") {
+		return false
+	}
+	return true
+}
 
 var bodies = map[string]sarama.VerifBody{}
 var bodyOrder []string
@@ -720,7 +737,9 @@ func batchCase(b *sarama.RecordBatch) {
 	run.Emit(line, fmt.Sprintf("%d %s %s", enc.PrepLen, hx(enc.Bytes), hx(raw)))
 	run.Nontrivial(line)
 	decBatchCase(enc.Bytes, comp, raw, "ok "+hdr+" "+strings.Join(recs, " ")+" rest=0", line, codec)
-	run.Emit("kind "+hx(enc.Bytes), sarama.VerifRecordsKind(enc.Bytes))
+	if len(enc.Bytes) < 200000 {
+		run.Emit("kind "+hx(enc.Bytes), sarama.VerifRecordsKind(enc.Bytes))
+	}
 }
 
 func decBatchCase(buf, comp, raw []byte, want, src, codec string) {
@@ -740,7 +759,13 @@ func decBatchCase(buf, comp, raw []byte, want, src, codec string) {
 		}
 		return s
 	})
-	run.Emit(line, ans)
+	if len(buf) < 200000 {
+		run.Emit(line, ans)
+	} else {
+		// very large batches (the 131070-record guard): the decode is checked by the oracle only, the model gets
+		// the encode line
+		run.Case("large batch decode: " + ans[:3])
+	}
 	if want != "" && ans != want {
 		if codec == "2" && len(comp) < 8 {
 			codec += ":snappy-short"
